@@ -628,3 +628,407 @@ Proof.
   intros Hb Hr Ht Hw. rewrite merged_key_slot by assumption.
   apply slot_scalar. rewrite <- whole_value_bindings. exact Hw.
 Qed.
+
+(* ---------------------------------------------------------------- independence *)
+
+Definition ptuple : Type := option str * option str * ofilter * option sval.
+Definition pfile : Type := list (key * (option sval * list ptuple)).
+
+Definition applies_raw (e : env) (bp : bplat) (t : test) (h tg : option str) (f : ofilter) : bool :=
+  applies e bp t {| ov_host := h; ov_target := tg; ov_filter := f; ov_data := [] |}.
+
+Lemma applies_raw_eq e bp t o :
+  applies e bp t o = applies_raw e bp t (ov_host o) (ov_target o) (ov_filter o).
+Proof. reflexivity. Qed.
+
+Fixpoint pass_proj (e : env) (bp : bplat) (t : test) (ps : list ptuple) : option sval :=
+  match ps with
+  | [] => None
+  | (h, tg, f, v) :: r =>
+      if applies_raw e bp t h tg f
+      then match v with Some x => Some x | None => pass_proj e bp t r end
+      else pass_proj e bp t r
+  end.
+
+Lemma find_hits_proj e bp t s ovl :
+  match find (hits e bp t s) ovl with Some o => data_get s (ov_data o) | None => None end =
+  pass_proj e bp t (map (proj_ov s) ovl).
+Proof.
+  induction ovl as [|o r IH]; cbn [find map pass_proj proj_ov]; [reflexivity|].
+  unfold hits at 1. rewrite applies_raw_eq.
+  destruct (applies_raw e bp t (ov_host o) (ov_target o) (ov_filter o)); cbn [andb]; [|exact IH].
+  destruct (data_get s (ov_data o)) eqn:E; cbn [is_some]; [exact E|exact IH].
+Qed.
+
+Definition povs (n : key) (pf : pfile) : list ptuple :=
+  match lookup n pf with Some p => snd p | None => [] end.
+
+Definition pbinding (n : key) (pf : pfile) : option sval :=
+  match lookup n pf with Some p => fst p | None => None end.
+
+Lemma map_proj_ovs_of s n f : map (proj_ov s) (ovs_of n f) = povs n (proj_file s f).
+Proof.
+  unfold povs, proj_file, ovs_of. rewrite (lookup_map_snd (proj_pcfg s)).
+  destruct (lookup n (f_profiles f)); reflexivity.
+Qed.
+
+Lemma map_flat_map {A B C : Type} (g : B -> C) (h : A -> list B) (l : list A) :
+  map g (flat_map h l) = flat_map (fun x => map g (h x)) l.
+Proof.
+  induction l as [|x r IH]; cbn [flat_map map]; [reflexivity|]. rewrite map_app, IH. reflexivity.
+Qed.
+
+Lemma flat_map_map {A B C : Type} (g : A -> B) (h : B -> list C) (l : list A) :
+  flat_map h (map g l) = flat_map (fun x => h (g x)) l.
+Proof. induction l as [|x r IH]; cbn [flat_map map]; [reflexivity|]. rewrite IH. reflexivity. Qed.
+
+Definition pordered (prepo : pfile) (ptools : list pfile) (sel : key) : list ptuple :=
+  (if is_default sel then [] else flat_map (povs sel) (prepo :: ptools))
+  ++ flat_map (povs default_name) (prepo :: ptools).
+
+Lemma map_proj_ordered s repo tools sel :
+  map (proj_ov s) (ordered_overrides repo tools sel) =
+  pordered (proj_file s repo) (map (proj_file s) tools) sel.
+Proof.
+  unfold ordered_overrides, pordered, by_priority. rewrite map_app.
+  change (proj_file s repo :: map (proj_file s) tools) with (map (proj_file s) (repo :: tools)).
+  rewrite !flat_map_map.
+  assert (H : forall n, map (proj_ov s) (flat_map (ovs_of n) (repo :: tools)) =
+                        flat_map (fun x => povs n (proj_file s x)) (repo :: tools)).
+  { intros n. rewrite map_flat_map. apply flat_map_ext. intros f. apply map_proj_ovs_of. }
+  rewrite H. destruct (is_default sel); [reflexivity|]. rewrite H. reflexivity.
+Qed.
+
+Definition orestrict (s : setting) (v : option sval) : option sval :=
+  match v with Some x => Some (restrict_sval s x) | None => None end.
+
+Lemma pbinding_proj s n k f :
+  setting_key s = Some k -> pbinding n (proj_file s f) = orestrict s (binding n k f).
+Proof.
+  intros Hk. unfold pbinding, proj_file, binding, layer_settings, olookup.
+  rewrite (lookup_map_snd (proj_pcfg s)).
+  destruct (lookup n (f_profiles f)) as [pc|]; [|reflexivity].
+  cbn [fst proj_pcfg]. unfold proj_settings. rewrite Hk.
+  destruct (lookup k (pc_settings pc)); reflexivity.
+Qed.
+
+Lemma filter_upsert {A : Type} (P : key -> bool) k (a : A) base :
+  filter (fun kv => P (fst kv)) (upsert k a base) =
+  if P k then upsert k a (filter (fun kv => P (fst kv)) base)
+  else filter (fun kv => P (fst kv)) base.
+Proof.
+  induction base as [|[k' v'] r IH]; cbn [upsert filter fst].
+  - destruct (P k); reflexivity.
+  - destruct (str_eqb k k') eqn:E.
+    + apply str_eqb_eq in E. subst k'. cbn [filter fst].
+      destruct (P k); cbn [upsert]; rewrite ?str_eqb_refl; reflexivity.
+    + cbn [filter fst]. rewrite IH.
+      destruct (P k'), (P k); cbn [upsert]; rewrite ?E; reflexivity.
+Qed.
+
+Lemma filter_fold_upsert {A : Type} (P : key -> bool) (m : list (key * A)) : forall base,
+  filter (fun kv => P (fst kv)) (fold_left (fun acc kv => upsert (fst kv) (snd kv) acc) m base) =
+  fold_left (fun acc kv => upsert (fst kv) (snd kv) acc) (filter (fun kv => P (fst kv)) m)
+            (filter (fun kv => P (fst kv)) base).
+Proof.
+  induction m as [|[k a] r IH]; intros base; cbn [fold_left filter fst snd]; [reflexivity|].
+  rewrite IH, filter_upsert. destruct (P k); reflexivity.
+Qed.
+
+Lemma restrict_plain s v : relevant_subkeys s = None -> restrict_sval s v = v.
+Proof. intros H. unfold restrict_sval. rewrite H. reflexivity. Qed.
+
+Lemma restrict_merge s old new :
+  restrict_sval s (merge_sval old new) = merge_sval (orestrict s old) (restrict_sval s new).
+Proof.
+  destruct (relevant_subkeys s) as [ks|] eqn:Er.
+  - unfold orestrict, restrict_sval. rewrite Er.
+    destruct new as [a|m]; cbn [merge_sval]; [reflexivity|].
+    rewrite (filter_fold_upsert (fun k => mem_str k ks)).
+    destruct old as [[a|b]|]; reflexivity.
+  - rewrite !restrict_plain by exact Er.
+    destruct old as [x|]; cbn [orestrict]; [rewrite restrict_plain by exact Er|]; reflexivity.
+Qed.
+
+Lemma orestrict_slot_from s bs : forall a,
+  orestrict s (slot_from a bs) = slot_from (orestrict s a) (map (orestrict s) bs).
+Proof.
+  unfold slot_from. induction bs as [|b r IH]; intros a; cbn [fold_left map]; [reflexivity|].
+  rewrite IH. f_equal. destruct b as [v|]; cbn [slot_step orestrict]; [|reflexivity].
+  rewrite restrict_merge. reflexivity.
+Qed.
+
+Lemma sub_orestrict s v x ks :
+  relevant_subkeys s = Some ks -> mem_str x ks = true -> sub (orestrict s v) x = sub v x.
+Proof.
+  intros Hr Hx. destruct v as [[a|m]|]; cbn [orestrict]; [| |reflexivity];
+    unfold restrict_sval; rewrite Hr; cbn [sub]; [reflexivity|].
+  rewrite (lookup_filter_keys (fun k => mem_str k ks)), Hx. reflexivity.
+Qed.
+
+(* the profile-level value as a function of the two looked-up values *)
+Definition jcore (hc : bool) (cv dv : option sval) (sk : key) : option sval :=
+  if is_some (sub (if hc then cv else dv) k_path)
+  then match or_else (sub cv sk) (sub dv sk) with Some a => Some (VLeaf a) | None => None end
+  else Some (VLeaf a_false).
+
+Definition pv_core (s : setting) (hc : bool) (cv dv : option sval) : option sval :=
+  match s with
+  | SPriority => Some (VLeaf a_zero)
+  | STestGroup => Some (VLeaf a_global)
+  | SJunitSuccess => jcore hc cv dv k_store_success
+  | SJunitFailure => jcore hc cv dv k_store_failure
+  | _ => or_else cv dv
+  end.
+
+Definition keyed {A : Type} (s : setting) (g : key -> option A) : option A :=
+  match setting_key s with Some k => g k | None => None end.
+
+Lemma profile_value_core custom dflt s :
+  profile_value custom dflt s =
+  pv_core s (is_some custom) (keyed s (fun k => olookup k custom)) (keyed s (fun k => lookup k dflt)).
+Proof. destruct s, custom; reflexivity. Qed.
+
+Lemma pv_core_restrict s hc cv dv :
+  pv_core s hc cv dv = pv_core s hc (orestrict s cv) (orestrict s dv).
+Proof.
+  destruct s; cbn [pv_core]; try reflexivity;
+    try (destruct cv, dv; reflexivity).
+  - unfold jcore.
+    rewrite !(sub_orestrict SJunitSuccess _ k_store_success _ eq_refl eq_refl).
+    destruct hc; rewrite !(sub_orestrict SJunitSuccess _ k_path _ eq_refl eq_refl); reflexivity.
+  - unfold jcore.
+    rewrite !(sub_orestrict SJunitFailure _ k_store_failure _ eq_refl eq_refl).
+    destruct hc; rewrite !(sub_orestrict SJunitFailure _ k_path _ eq_refl eq_refl); reflexivity.
+Qed.
+
+Lemma is_some_fold_layers n fs : forall acc,
+  is_some (fold_left (merge_layer n) fs acc) =
+  is_some acc || existsb (fun f => is_some (lookup n (f_profiles f))) fs.
+Proof.
+  induction fs as [|f r IH]; intros acc; cbn [fold_left existsb].
+  - rewrite orb_false_r. reflexivity.
+  - rewrite IH. unfold merge_layer, layer_settings.
+    destruct (lookup n (f_profiles f)); cbn [is_some orb].
+    + rewrite orb_true_r. reflexivity.
+    + reflexivity.
+Qed.
+
+Definition players (pb prepo : pfile) (ptools : list pfile) : list pfile :=
+  pb :: rev ptools ++ [prepo].
+
+Lemma players_proj s builtin repo tools :
+  players (proj_file s builtin) (proj_file s repo) (map (proj_file s) tools) =
+  map (proj_file s) (layers builtin repo tools).
+Proof. unfold players, layers. cbn [map]. rewrite map_app, map_rev. reflexivity. Qed.
+
+(* settings_for computed from the projections alone *)
+Definition settings_proj (e : env) (bp : bplat) (s : setting) (pb prepo : pfile)
+           (ptools : list pfile) (sel : key) (t : test) : option sval :=
+  or_else (pass_proj e bp t (pordered prepo ptools sel))
+          (pv_core s
+             (negb (is_default sel)
+              && existsb (fun pf => is_some (lookup sel pf)) (players pb prepo ptools))
+             (if is_default sel then None else slot (map (pbinding sel) (players pb prepo ptools)))
+             (slot (map (pbinding default_name) (players pb prepo ptools)))).
+
+Lemma restricted_slot s k builtin repo tools n :
+  wf_file builtin = true -> wf_file repo = true -> forallb wf_file tools = true ->
+  setting_key s = Some k ->
+  orestrict s (olookup k (merged_profile builtin repo tools n)) =
+  slot (map (pbinding n)
+            (players (proj_file s builtin) (proj_file s repo) (map (proj_file s) tools))).
+Proof.
+  intros Hb Hr Ht Hk. rewrite merged_key_slot by assumption.
+  unfold slot. rewrite orestrict_slot_from. cbn [orestrict].
+  rewrite players_proj, !map_map. f_equal. apply map_ext. intros f.
+  symmetry. apply pbinding_proj. exact Hk.
+Qed.
+
+Lemma lookup_default_profile k builtin repo tools :
+  lookup k (default_profile builtin repo tools) =
+  olookup k (merged_profile builtin repo tools default_name).
+Proof. unfold default_profile. destruct (merged_profile builtin repo tools default_name); reflexivity. Qed.
+
+Lemma existsb_map_fn {A B : Type} (g : A -> B) (P : B -> bool) (l : list A) :
+  existsb P (map g l) = existsb (fun x => P (g x)) l.
+Proof. induction l as [|x r IH]; cbn [map existsb]; [reflexivity|]. rewrite IH. reflexivity. Qed.
+
+Lemma existsb_ext_fn {A : Type} (P Q : A -> bool) (l : list A) :
+  (forall x, P x = Q x) -> existsb P l = existsb Q l.
+Proof.
+  intros H. induction l as [|x r IH]; cbn [existsb]; [reflexivity|]. rewrite H, IH. reflexivity.
+Qed.
+
+Lemma has_custom_proj s builtin repo tools sel :
+  is_some (custom_profile builtin repo tools sel) =
+  negb (is_default sel)
+  && existsb (fun pf => is_some (lookup sel pf))
+             (players (proj_file s builtin) (proj_file s repo) (map (proj_file s) tools)).
+Proof.
+  unfold custom_profile. destruct (is_default sel); [reflexivity|]. cbn [negb andb].
+  unfold merged_profile. rewrite is_some_fold_layers. cbn [is_some orb].
+  change (builtin :: rev tools ++ [repo]) with (layers builtin repo tools).
+  rewrite players_proj, existsb_map_fn. apply existsb_ext_fn. intros f.
+  unfold proj_file. rewrite (lookup_map_snd (proj_pcfg s)).
+  destruct (lookup sel (f_profiles f)); reflexivity.
+Qed.
+
+Theorem settings_for_proj e bp builtin repo tools sel t s :
+  wf_file builtin = true -> wf_file repo = true -> forallb wf_file tools = true ->
+  settings_for e bp builtin repo tools sel t s =
+  settings_proj e bp s (proj_file s builtin) (proj_file s repo) (map (proj_file s) tools) sel t.
+Proof.
+  intros Hb Hr Ht. unfold settings_for, compiled_for, settings_proj.
+  rewrite override_order, pass_first_match by assumption.
+  rewrite find_hits_proj, map_proj_ordered. f_equal.
+  rewrite profile_value_core, pv_core_restrict. rewrite (has_custom_proj s).
+  destruct (setting_key s) as [k|] eqn:Hk.
+  - unfold keyed. rewrite Hk. f_equal.
+    + unfold custom_profile. destruct (is_default sel); [reflexivity|].
+      apply restricted_slot; assumption.
+    + rewrite lookup_default_profile. apply restricted_slot; assumption.
+  - destruct s; try discriminate Hk; reflexivity.
+Qed.
+
+(* the resolved value of setting s is a function of the s-components of the configuration *)
+Theorem independent e bp builtin repo tools builtin' repo' tools' sel t s :
+  wf_file builtin = true -> wf_file repo = true -> forallb wf_file tools = true ->
+  wf_file builtin' = true -> wf_file repo' = true -> forallb wf_file tools' = true ->
+  proj_file s builtin = proj_file s builtin' ->
+  proj_file s repo = proj_file s repo' ->
+  map (proj_file s) tools = map (proj_file s) tools' ->
+  settings_for e bp builtin repo tools sel t s = settings_for e bp builtin' repo' tools' sel t s.
+Proof.
+  intros Hb Hr Ht Hb' Hr' Ht' E1 E2 E3.
+  rewrite !settings_for_proj by assumption. rewrite E1, E2, E3. reflexivity.
+Qed.
+
+Theorem cli_wins cli resolved s v : cli s = Some v -> effective cli resolved s = Some v.
+Proof. intros H. unfold effective. rewrite H. reflexivity. Qed.
+
+Theorem cli_absent cli resolved s : cli s = None -> effective cli resolved s = resolved s.
+Proof. intros H. unfold effective. rewrite H. reflexivity. Qed.
+
+Theorem profile_then_default custom dflt s k :
+  setting_key s = Some k -> relevant_subkeys s = None ->
+  profile_value custom dflt s = or_else (olookup k custom) (lookup k dflt).
+Proof.
+  intros Hk Hr. destruct s; try discriminate Hr; try discriminate Hk;
+    injection Hk as <-; destruct custom; reflexivity.
+Qed.
+
+(* ---------------------------------------------------------------- witnesses *)
+
+Definition s_ci : str := [99; 105]. (* ci *)
+Definition s_default_miri : str := [100; 101; 102; 97; 117; 108; 116; 45; 109; 105; 114; 105].
+Definition s_period : str := [112; 101; 114; 105; 111; 100]. (* period *)
+Definition s_terminate_after : str :=
+  [116; 101; 114; 109; 105; 110; 97; 116; 101; 45; 97; 102; 116; 101; 114]. (* terminate-after *)
+Definition s_10s : str := [34; 49; 48; 115; 34]. (* "10s" *)
+Definition s_30s : str := [34; 51; 48; 115; 34]. (* "30s" *)
+Definition s_60s : str := [34; 54; 48; 115; 34]. (* "60s" *)
+Definition s_1s : str := [34; 49; 115; 34]. (* "1s" *)
+Definition s_2 : str := [50].
+Definition s_3 : str := [51].
+Definition s_5 : str := [53].
+Definition s_7 : str := [55].
+Definition s_0 : str := [48].
+Definition s_1 : str := [49].
+Definition s_test_a : str := [116; 101; 115; 116; 40; 97; 41]. (* test(a) *)
+Definition s_all : str := [97; 108; 108; 40; 41]. (* all() *)
+Definition s_cfg_unix : str := [99; 102; 103; 40; 117; 110; 105; 120; 41]. (* cfg(unix) *)
+Definition s_cfg_windows : str := [99; 102; 103; 40; 119; 105; 110; 100; 111; 119; 115; 41].
+Definition s_tool1 : str := [116; 111; 111; 108; 49]. (* tool1 *)
+Definition s_true : str := [116; 114; 117; 101]. (* true *)
+Definition s_junit_xml : str := [34; 106; 117; 110; 105; 116; 46; 120; 109; 108; 34]. (* "junit.xml" *)
+Definition s_100ms : str := [34; 49; 48; 48; 109; 115; 34]. (* "100ms" *)
+Definition s_300ms : str := [34; 51; 48; 48; 109; 115; 34]. (* "300ms" *)
+Definition s_never : str := [34; 110; 101; 118; 101; 114; 34]. (* "never" *)
+Definition s_immediate : str := [34; 105; 109; 109; 101; 100; 105; 97; 116; 101; 34]. (* "immediate" *)
+Definition s_final : str := [34; 102; 105; 110; 97; 108; 34]. (* "final" *)
+Definition s_empty_arr : str := [91; 93]. (* [] *)
+Definition s_report_name : str := [114; 101; 112; 111; 114; 116; 45; 110; 97; 109; 101].
+Definition s_nextest_run : str := [34; 110; 101; 120; 116; 101; 115; 116; 45; 114; 117; 110; 34].
+
+Definition mk_ov h tg f d : override :=
+  {| ov_host := h; ov_target := tg; ov_filter := f; ov_data := d |}.
+Definition mk_pc st ovs : pcfg := {| pc_settings := st; pc_overrides := ovs |}.
+Definition mk_file tool ps : file := {| f_tool := tool; f_profiles := ps |}.
+
+(* default-config.toml, the keys the eleven settings read *)
+Definition w_builtin : file :=
+  mk_file None
+    [(default_name,
+      mk_pc [(k_retries, VLeaf s_0); (k_threads, VLeaf s_1); (k_extra_args, VLeaf s_empty_arr);
+             (k_failure_output, VLeaf s_immediate); (k_success_output, VLeaf s_never);
+             (k_slow_timeout, VTable [(s_period, s_60s)]); (k_leak_timeout, VLeaf s_100ms);
+             (k_junit, VTable [(s_report_name, s_nextest_run); (k_store_success, a_false);
+                               (k_store_failure, s_true)])] []);
+     (s_default_miri, mk_pc [] [])].
+
+(* F8 witness: .config/nextest.toml has
+     [profile.default]
+     slow-timeout = { period = "10s" }
+   and the tool config has
+     [profile.default]
+     slow-timeout = { period = "30s", terminate-after = 2 } *)
+Definition w_f8_repo : file :=
+  mk_file None [(default_name, mk_pc [(k_slow_timeout, VTable [(s_period, s_10s)])] [])].
+Definition w_f8_tool : file :=
+  mk_file (Some s_tool1)
+    [(default_name,
+      mk_pc [(k_slow_timeout, VTable [(s_period, s_30s); (s_terminate_after, s_2)])] [])].
+
+Theorem whole_value_refuted :
+  exists builtin repo tools n k,
+    wf_file builtin = true /\ wf_file repo = true /\ forallb wf_file tools = true /\
+    ~ osval_ext (olookup k (merged_profile builtin repo tools n))
+                (whole_value builtin repo tools n k).
+Proof.
+  exists w_builtin, w_f8_repo, [w_f8_tool], default_name, k_slow_timeout.
+  repeat split; try (vm_compute; reflexivity).
+  intros H. vm_compute in H. specialize (H s_terminate_after). vm_compute in H. discriminate H.
+Qed.
+
+(* a configuration with two tools and two profiles, for the non-vacuity examples *)
+Definition w_o1 := mk_ov None None (OFFilter s_test_a) [(SRetries, VLeaf s_5)].
+Definition w_o2 := mk_ov None (Some s_cfg_unix) OFNone [(SThreads, VLeaf s_2)].
+Definition w_o3 := mk_ov None None (OFFilter s_all)
+                         [(SRetries, VLeaf s_7); (SSlowTimeout, VLeaf s_1s)].
+Definition w_o4 := mk_ov None None (OFFilter s_all) [(SLeakTimeout, VLeaf s_300ms)].
+Definition w_o5 := mk_ov (Some s_cfg_windows) None (OFFilter s_all) [(SRetries, VLeaf s_3)].
+Definition w_o6 := mk_ov None None (OFFilter s_test_a) [(SSuccessOutput, VLeaf s_final)].
+
+Definition w_repo : file :=
+  mk_file None
+    [(default_name, mk_pc [(k_retries, VLeaf s_2); (k_slow_timeout, VTable [(s_period, s_10s)])]
+                          [w_o1; w_o2]);
+     (s_ci, mk_pc [(k_retries, VLeaf s_3);
+                   (k_junit, VTable [(k_path, s_junit_xml); (k_store_success, s_true)])]
+                  [w_o3])].
+Definition w_tool1 : file :=
+  mk_file (Some s_tool1)
+    [(s_ci, mk_pc [(k_leak_timeout, VLeaf s_300ms)] [w_o5; w_o6]);
+     (default_name, mk_pc [(k_slow_timeout, VTable [(s_period, s_30s)])] [w_o4])].
+Definition w_tool2 : file :=
+  mk_file (Some s_tool1) [(default_name, mk_pc [(k_threads, VLeaf s_3)] [w_o6; w_o5])].
+
+(* oracle tables: platform 0 is a unix host, 1 a windows target; test 0 is named "a", test 1
+   is not *)
+Definition w_env : env :=
+  {| e_spec := fun sp p => if str_eqb sp s_cfg_unix then p =? 0 else p =? 1;
+     e_filter := fun f t => if str_eqb f s_test_a then t =? 0 else true |}.
+Definition w_bp : bplat := {| bp_host := 0; bp_target := Some 1 |}.
+Definition w_t0 : test := {| t_id := 0; t_host := false |}.
+Definition w_t1 : test := {| t_id := 1; t_host := true |}.
+
+(* the same configuration with every other setting changed: equal retries-projection *)
+Definition w_repo' : file :=
+  mk_file None
+    [(default_name, mk_pc [(k_threads, VLeaf s_7); (k_retries, VLeaf s_2)]
+                          [mk_ov None None (OFFilter s_test_a)
+                                 [(SThreads, VLeaf s_7); (SRetries, VLeaf s_5)];
+                           mk_ov None (Some s_cfg_unix) OFNone []]);
+     (s_ci, mk_pc [(k_retries, VLeaf s_3)]
+                  [mk_ov None None (OFFilter s_all) [(SRetries, VLeaf s_7)]])].
